@@ -33,9 +33,12 @@ impl rustls::client::danger::ServerCertVerifier for AcceptAny {
     }
 }
 
-fn client_config(with_cert: bool) -> Arc<rustls::ClientConfig> {
+/// `alpn_pad` > 0 makes the ClientHello that many bytes longer (a list of ALPN protocol names,
+/// which the server ignores): legal, and what clients with many extensions / padding produce.
+fn client_config(with_cert: bool, alpn_pad: usize, tls12: bool) -> Arc<rustls::ClientConfig> {
     let provider = Arc::new(rustls::crypto::ring::default_provider());
-    let b = rustls::ClientConfig::builder().dangerous().with_custom_certificate_verifier(Arc::new(AcceptAny(provider)));
+    let versions: &[&rustls::SupportedProtocolVersion] = if tls12 { &[&rustls::version::TLS12] } else { &[&rustls::version::TLS13] };
+    let b = rustls::ClientConfig::builder_with_provider(provider.clone()).with_protocol_versions(versions).unwrap().dangerous().with_custom_certificate_verifier(Arc::new(AcceptAny(provider)));
     let mut cfg = if with_cert {
         let p = pki();
         b.with_client_auth_cert(vec![CertificateDer::from(p.client_cert.clone())], PrivateKeyDer::Pkcs8(PrivatePkcs8KeyDer::from(p.client_key.clone()))).unwrap()
@@ -43,6 +46,17 @@ fn client_config(with_cert: bool) -> Arc<rustls::ClientConfig> {
         b.with_no_client_auth()
     };
     cfg.resumption = rustls::client::Resumption::disabled();
+    if alpn_pad > 0 {
+        // each name costs 1 length byte + its bytes; the extension header costs 6 more
+        let mut left = alpn_pad.saturating_sub(6);
+        let mut names = Vec::new();
+        while left > 1 {
+            let n = (left - 1).min(255);
+            names.push(vec![b'x'; n]);
+            left -= n + 1;
+        }
+        cfg.alpn_protocols = names;
+    }
     Arc::new(cfg)
 }
 
@@ -180,7 +194,7 @@ impl Write for TlsSim {
 
 fn big_rows() -> Vec<Vec<u8>> {
     let mut rows = vec![(0..40_000).map(|i| (i % 251) as u8).collect::<Vec<u8>>()];
-    for r in 0..70u8 {
+    for r in 0..250u8 {
         rows.push(vec![r; 300]);
     }
     rows
@@ -222,8 +236,12 @@ fn script() -> (Vec<u8>, Conv, Vec<u8>) {
 }
 
 fn run_tls(server_tls: Option<Arc<rustls::ServerConfig>>, client_cert: bool, cuts: Vec<usize>, uniform: usize) -> TlsOutcome {
+    run_tls_with(server_tls, client_cert, cuts, uniform, 0, false)
+}
+
+fn run_tls_with(server_tls: Option<Arc<rustls::ServerConfig>>, client_cert: bool, cuts: Vec<usize>, uniform: usize, alpn_pad: usize, tls12: bool) -> TlsOutcome {
     let (bytes, _, _) = script();
-    let client = rustls::ClientConnection::new(client_config(client_cert), ServerName::try_from("localhost").unwrap()).unwrap();
+    let client = rustls::ClientConnection::new(client_config(client_cert, alpn_pad, tls12), ServerName::try_from("localhost").unwrap()).unwrap();
     let st = TlsState {
         client,
         to_server: Vec::new(),
@@ -461,6 +479,102 @@ impl Family for NoConfig {
     }
 }
 
+
+/// ClientHello sizes swept byte by byte across the sizes at which the server's read buffer, the
+/// prepended-bytes reader and the TLS record limit change behaviour; SSL request coalesced with
+/// the ClientHello or not; a few read sizes.
+struct HelloSizes {
+    cases: Vec<(usize, u8, bool)>, // (alpn padding, schedule, tls12)
+}
+impl HelloSizes {
+    fn new(quick: bool) -> Self {
+        let mut pads: Vec<usize> = Vec::new();
+        let step = if quick { 7 } else { 1 };
+        for (lo, hi) in [(3600usize, 4200usize), (7800, 8300), (15900, 16500)] {
+            let mut p = lo;
+            while p <= hi {
+                pads.push(p);
+                p += step;
+            }
+        }
+        pads.extend([300, 1000, 2000, 3000, 5000, 6000, 10000, 12000, 20000, 33000, 60000]);
+        let mut cases = Vec::new();
+        for p in pads {
+            for sched in 0..4u8 {
+                cases.push((p, sched, false));
+            }
+            if p % 5 == 0 {
+                cases.push((p, 0, true));
+                cases.push((p, 1, true));
+            }
+        }
+        HelloSizes { cases }
+    }
+    fn sched(k: u8) -> (Vec<usize>, usize, &'static str) {
+        match k {
+            0 => (vec![], usize::MAX, "everything the client has said arrives in as few reads as the server's buffer allows"),
+            1 => (vec![36], usize::MAX, "SSL request alone, then the ClientHello"),
+            2 => (vec![], 1460, "reads of at most 1460 bytes"),
+            _ => (vec![20], usize::MAX, "cut inside the SSL request"),
+        }
+    }
+}
+impl Family for HelloSizes {
+    fn name(&self) -> String {
+        "client-hello-sizes".into()
+    }
+    fn len(&self) -> u64 {
+        self.cases.len() as u64
+    }
+    fn run(&self, idx: u64, st: &mut Stats) -> Result<(), Violation> {
+        let (pad, k, tls12) = self.cases[idx as usize];
+        let (cuts, uniform, what) = Self::sched(k);
+        st.nontrivial += 1;
+        let o = run_tls_with(Some(pki().server_plain.clone()), false, cuts, uniform, pad, tls12);
+        st.transitions += o.st.reads as u64;
+        if o.st.first_flight_end > 4096 + 36 {
+            st.bump("client_hello_beyond_4096_bytes");
+        }
+        if o.st.first_flight_end > 16384 + 5 + 36 {
+            st.bump("client_hello_in_two_records");
+        }
+        if tls12 {
+            st.bump("tls12_handshakes");
+        }
+        judge(&o, false, &format!("ClientHello padded by {} bytes (first flight {} bytes), {}, {}", pad, o.st.first_flight_end, if tls12 { "TLS 1.2" } else { "TLS 1.3" }, what), st)
+    }
+    fn describe(&self, idx: u64) -> J {
+        let (pad, k, tls12) = self.cases[idx as usize];
+        json!({"alpn_padding_bytes": pad, "schedule": Self::sched(k).2, "tls12": tls12})
+    }
+}
+
+/// the same splits with a TLS 1.2 client (two round trips, other record sequence)
+struct Tls12Splits {
+    base_n: usize,
+    client_cert: bool,
+}
+impl Family for Tls12Splits {
+    fn name(&self) -> String {
+        format!("tls12-single-splits-{}", if self.client_cert { "client-cert" } else { "no-client-cert" })
+    }
+    fn len(&self) -> u64 {
+        (self.base_n + 6) as u64
+    }
+    fn run(&self, idx: u64, st: &mut Stats) -> Result<(), Violation> {
+        st.nontrivial += 1;
+        st.bump("tls12_handshakes");
+        let cfg = if self.client_cert { pki().server_client_auth.clone() } else { pki().server_plain.clone() };
+        let cuts = vec![idx as usize + 1];
+        let o = run_tls_with(Some(cfg), self.client_cert, cuts.clone(), usize::MAX, 0, true);
+        st.transitions += o.st.reads as u64;
+        judge(&o, self.client_cert, &format!("TLS 1.2, cuts {:?}", cuts), st)
+    }
+    fn describe(&self, idx: u64) -> J {
+        json!({"tls": "1.2", "cuts": [idx + 1], "client_certificate": self.client_cert})
+    }
+}
+
 pub fn build(quick: bool) -> Check {
     let mut families: Vec<Box<dyn Family>> = Vec::new();
     for cc in [false, true] {
@@ -471,11 +585,17 @@ pub fn build(quick: bool) -> Check {
             families.push(Box::new(Splits { client_cert: cc, base: baseline(cc), mode: 3 }));
         }
     }
+    families.push(Box::new(HelloSizes::new(quick)));
+    for cc in [false, true] {
+        let cfg = if cc { pki().server_client_auth.clone() } else { pki().server_plain.clone() };
+        let n = run_tls_with(Some(cfg), cc, vec![], usize::MAX, 0, true).st.to_server.len();
+        families.push(Box::new(Tls12Splits { base_n: n, client_cert: cc }));
+    }
     families.push(Box::new(NoConfig { base: baseline(false) }));
     Check {
         id: "C18",
         level: "model_checking",
-        rule: "a live rustls client inside the transport: SSLRequest (plaintext) immediately followed by the ClientHello, then, once the server's flight arrived, Finished (+ client certificate) coalesced with the encrypted HandshakeResponse41 and six pipelined commands, among them a 20000-byte query (several inbound TLS records) answered by a resultset with a 40000-byte cell and 70 rows (several outbound records). Schedules: every single cut position of the whole client->server stream, every pair of cut positions within SSLRequest+ClientHello (thorough: every pair within the first 1100 bytes), uniform read sizes 1..64; with and without a client certificate; plus a TLS-requesting client against a shim without TLS configuration under every cut of its first flight. Oracle: user name and certificate chain at after_authentication, callback log = script, every server byte after the greeting lies in a well-formed TLS record the client accepts, decrypted replies decode strictly with the right sequence ids, run_on returns Ok; no-config case: Err and no callback.".into(),
+        rule: "a live rustls client inside the transport: SSLRequest (plaintext) immediately followed by the ClientHello, then, once the server's flight arrived, Finished (+ client certificate) coalesced with the encrypted HandshakeResponse41 and six pipelined commands, among them a 20000-byte query (several inbound TLS records) answered by a resultset with a 40000-byte cell and 250 rows (115 KB: several outbound records, more than rustls buffers unsent). Schedules: every single cut position of the whole client->server stream, every pair of cut positions within SSLRequest+ClientHello (thorough: every pair within the first 1100 bytes), uniform read sizes 1..64; with and without a client certificate; the single cuts again with a TLS 1.2 client; ClientHello sizes (padded with ALPN names) swept across 3.6-4.2 KB, 7.8-8.3 KB, 15.9-16.5 KB and up to 60 KB, coalesced with the SSL request or not; plus a TLS-requesting client against a shim without TLS configuration under every cut of its first flight. Oracle: user name and certificate chain at after_authentication, callback log = script, every server byte after the greeting lies in a well-formed TLS record the client accepts, decrypted replies decode strictly with the right sequence ids, run_on returns Ok; no-config case: Err and no callback.".into(),
         assumptions: vec![
             "ring's randomness is not owned: handshake bytes differ between runs and with a client certificate the stream length varies by a byte or two; cut positions are taken from the stream actually produced, the verdict does not depend on the random values".into(),
             "flush behaviour is C12's subject; here written bytes are visible to the client at once".into(),
@@ -484,6 +604,6 @@ pub fn build(quick: bool) -> Check {
         exhaustive: true,
         caps_hit: vec![],
         families,
-        required: vec!["splits_inside_client_hello", "splits_inside_ssl_request", "ssl_request_coalesced_with_client_hello", "client_chains_delivered", "refusals", "tls_records_from_server"],
+        required: vec!["client_hello_beyond_4096_bytes", "client_hello_in_two_records", "tls12_handshakes", "splits_inside_client_hello", "splits_inside_ssl_request", "ssl_request_coalesced_with_client_hello", "client_chains_delivered", "refusals", "tls_records_from_server"],
     }
 }
